@@ -96,6 +96,20 @@ func ZZVerifC06Engine() {
 		}
 	}
 	dist := func(m *zzC06Rec) float64 { d := q - m.v; return float64(d * d) }
+	if mode == 3 && k == 3 && q != 0 { // (an all-zero query vector selects the text-only path by design) every live vector is in the vector result list: the fusion formula decides the order
+		for i := 1; i < len(res); i++ {
+			a, b := model[res[i-1]], model[res[i]]
+			if a == nil || b == nil || !a.live || !b.live {
+				continue
+			}
+			if alpha == 1 {
+				rt.Assert(dist(a) <= dist(b), "hybrid search with alpha = 1 orders purely by vector similarity")
+			}
+			if alpha == 0 {
+				rt.Assert(strings.Contains(a.text, "apple") || !strings.Contains(b.text, "apple"), "hybrid search with alpha = 0 orders purely by text relevance (no non-matching document before a matching one)")
+			}
+		}
+	}
 	if mode == 0 {
 		live := 0
 		for _, id := range ids {
